@@ -827,6 +827,7 @@ package websocket
 //@ modifies conn.g_closed
 //@ ensures conn.g_closed
 
+//@ pred isExtKey(k) := len(k) == 24 && lower(k[0]) == 's' && lower(k[1]) == 'e' && lower(k[2]) == 'c' && lower(k[3]) == '-' && lower(k[4]) == 'w' && lower(k[5]) == 'e' && lower(k[6]) == 'b' && lower(k[7]) == 's' && lower(k[8]) == 'o' && lower(k[9]) == 'c' && lower(k[10]) == 'k' && lower(k[11]) == 'e' && lower(k[12]) == 't' && lower(k[13]) == '-' && lower(k[14]) == 'e' && lower(k[15]) == 'x' && lower(k[16]) == 't' && lower(k[17]) == 'e' && lower(k[18]) == 'n' && lower(k[19]) == 's' && lower(k[20]) == 'i' && lower(k[21]) == 'o' && lower(k[22]) == 'n' && lower(k[23]) == 's'
 //@ pred isZeroTime(t) := t.wall == 0 && t.ext == 0 && t.loc == nil
 
 //@ func (*Upgrader).Upgrade
@@ -851,9 +852,11 @@ package websocket
 //@ assert at call:returnError#8[C12.status]: arg3 == 500 && herr != nil && w.g_hijacked == old(w.g_hijacked) + 1
 //@ assert at return#13[C12.onlyif]: okConn && okUpg && streq(r.Method, "GET") && okVer && okOrigin && okKey && herr == nil && w.g_hijacked == old(w.g_hijacked) + 1 && err == nil && conn != nil
 //@ assert at call:checkOrigin#1[C13.default]: imp(u.CheckOrigin == nil, true)
-//@ assert at call:append#5[C12.noinject.proto]: imp(u.Subprotocols == nil, forall(i, 0, len(arg1), arg1[i] > 31))
+//@ assert at call:append#5[C12.noinject.proto]: len(arg1) == 1 && arg1[0] > 31
 //@ assert at call:append#7[C12+C15.extline]: compress && u.EnableCompression
-//@ assert at call:append#8[C12+C15.extonly]: imp(len(k) == 24 && forall(i, 0, 24, lower(k[i]) == lower("sec-websocket-extensions"[i])), false)
+//@ assert at call:append#8[C12+C15.extonly]: !isExtKey(k)
+//@ loop 1 mapall extkeys: !isExtKey(k)
+//@ loop 4 mapuse extkeys
 //@ assert at call:append#10[C12.noinject]: len(arg1) == 1 && arg1[0] > 31
 //@ assert at call:Write#1[C12.template]: len(arg1) >= 127 && forall(i, 0, 97, arg1[i] == "HTTP/1.1 101 Switching Protocols\r\nUpgrade: websocket\r\nConnection: Upgrade\r\nSec-WebSocket-Accept: "[i])
 //@ assert at call:Write#1[C12.accept]: len(ak) == 28 && forall(i, 0, 28, arg1[97+i] == ak[i]) && arg1[125] == '\r' && arg1[126] == '\n' && arg1[len(arg1)-2] == '\r' && arg1[len(arg1)-1] == '\n'
@@ -866,7 +869,9 @@ package websocket
 //@ assert at return#12[C16.cleanup]: hconn.g_closed && conn == nil && err != nil
 //@ assert at return#13[C16.open]: !hconn.g_closed && !conn.conn.g_wdl && (conn.conn == hconn || (typeIs(conn.conn, "*brNetConn") && asType(conn.conn, "*brNetConn").Conn == hconn))
 //@ assert at return#13[C15.server]: iff(conn.newCompressionWriter != nil, compress) && iff(conn.newDecompressionReader != nil, compress) && imp(compress, u.EnableCompression) && conn.isServer
-//@ loop 4 invariant 0 <= i && i <= len(v)
-//@ loop 2 invariant len(p) >= 127 && forall(i, 0, 97, p[i] == "HTTP/1.1 101 Switching Protocols\r\nUpgrade: websocket\r\nConnection: Upgrade\r\nSec-WebSocket-Accept: "[i]) && forall(i, 0, 28, p[97+i] == ak[i]) && p[125] == '\r' && p[126] == '\n'
-//@ loop 3 invariant len(p) >= 127 && forall(i, 0, 97, p[i] == "HTTP/1.1 101 Switching Protocols\r\nUpgrade: websocket\r\nConnection: Upgrade\r\nSec-WebSocket-Accept: "[i]) && forall(i, 0, 28, p[97+i] == ak[i]) && p[125] == '\r' && p[126] == '\n'
+//@ loop 6 invariant 0 <= i && i <= len(v)
+//@ loop 3 invariant 0 <= i && i <= len(c.subprotocol)
 //@ loop 4 invariant len(p) >= 127 && forall(i, 0, 97, p[i] == "HTTP/1.1 101 Switching Protocols\r\nUpgrade: websocket\r\nConnection: Upgrade\r\nSec-WebSocket-Accept: "[i]) && forall(i, 0, 28, p[97+i] == ak[i]) && p[125] == '\r' && p[126] == '\n'
+//@ loop 3 invariant len(p) >= 127 && forall(i, 0, 97, p[i] == "HTTP/1.1 101 Switching Protocols\r\nUpgrade: websocket\r\nConnection: Upgrade\r\nSec-WebSocket-Accept: "[i]) && forall(i, 0, 28, p[97+i] == ak[i]) && p[125] == '\r' && p[126] == '\n'
+//@ loop 5 invariant len(p) >= 127 && forall(i, 0, 97, p[i] == "HTTP/1.1 101 Switching Protocols\r\nUpgrade: websocket\r\nConnection: Upgrade\r\nSec-WebSocket-Accept: "[i]) && forall(i, 0, 28, p[97+i] == ak[i]) && p[125] == '\r' && p[126] == '\n'
+//@ loop 6 invariant len(p) >= 127 && forall(i, 0, 97, p[i] == "HTTP/1.1 101 Switching Protocols\r\nUpgrade: websocket\r\nConnection: Upgrade\r\nSec-WebSocket-Accept: "[i]) && forall(i, 0, 28, p[97+i] == ak[i]) && p[125] == '\r' && p[126] == '\n'
